@@ -194,6 +194,14 @@ func (q *Query) Instantiated(level int) (*Query, *Query) {
 	if q.Goal == nil {
 		return nil, q
 	}
+	// antecedents of the goal become hypotheses (so that their quantifiers can be instantiated too)
+	hyps0 := q.Hyps
+	g0 := q.Goal
+	for g0.Op == "=>" && hasQuantifier(g0.Args[0]) {
+		hyps0 = append(append([]*Term{}, hyps0...), g0.Args[0])
+		g0 = g0.Args[1]
+	}
+	q = &Query{Hyps: hyps0, Goal: g0, Extra: q.Extra, FPMode: q.FPMode}
 	var sks []*Term
 	goal := skolemize(q.Goal, &sks)
 	anyQ := false
